@@ -188,8 +188,23 @@ def job_slow(j: dict) -> dict:
     out = {}
     import time
     t0 = time.time()
+    faillog = str(root.parent / (root.name + ".h1.ndjson"))
+    os.environ["THAILINT_VERIF_FAILLOG"] = faillog
     vs = Linter(project_root=str(root)).lint(str(root))
+    os.environ.pop("THAILINT_VERIF_FAILLOG", None)
     out["seconds"] = round(time.time() - t0, 1)
+    out["fails"] = []
+    if os.path.exists(faillog):
+        seen = set()
+        for line in open(faillog, encoding="utf-8", errors="replace"):
+            try:
+                f = json.loads(line)
+            except json.JSONDecodeError:
+                continue
+            k = (f.get("rule"), f.get("exc_type"))
+            if k not in seen:
+                seen.add(k)
+                out["fails"].append(f)
     for name in (f"a_slow.{ext}", f"b_healthy.{ext}"):
         out[name] = sorted(canon([v.rule_id, v.line, v.message]) for v in vs
                            if drive.rel(str(v.file_path), root) == name and v.line <= nseed
@@ -257,7 +272,14 @@ def run(chk) -> None:
         ext = SEED[sj["seed"]][0]
         if not v["ref"]:
             raise MachineryError("C11 slow job: the healthy seed has no findings (vacuous)")
-        for name in (f"a_slow.{ext}", f"b_healthy.{ext}"):
+        for f in v["fails"]:
+            chk.reject({"clause": "RuleFailed", "rule": f.get("rule"), "exc_type": f.get("exc_type"), "lang": sj["seed"],
+                        "where": f.get("where"), "deep": sj["token"] != "quote"}, dict(sj, fail=f),
+                       f"{f.get('rule')} failed with {f.get('exc_type')}: {str(f.get('exc_msg'))[:120]} on {sj['seed']} "
+                       f"after {case['faults']}")
+        for name in ((f"a_slow.{ext}", f"b_healthy.{ext}") if sj["token"] == "quote" else (f"b_healthy.{ext}",)):
+            # (a flood of unbalanced template-string delimiters makes tree-sitter re-interpret the whole file: for that
+            # token only the healthy neighbour is judged)
             lost = [x for x in v["ref"] if x not in v[name]]
             if lost:
                 chk.reject({"clause": "AnalysisDropped", "lang": sj["seed"], "file": name.split(".")[0],
@@ -284,10 +306,12 @@ def run(chk) -> None:
         if la == "ok":
             continue
         lang = case["seed"]
+        deep = case["big"] >= 3000 and bool({"nestParens", "longExpr"} & set(case["faults"]))
+        flood = case["big"] >= 3000 and "quoteFlood" in case["faults"]
         if la == "RuleFailed":
             for f in v["fails"]:
                 chk.reject({"clause": la, "rule": f.get("rule"), "exc_type": f.get("exc_type"), "lang": lang,
-                            "where": f.get("where")},
+                            "where": f.get("where"), "deep": deep},
                            dict(case, fail=f), f"{f.get('rule')} failed with {f.get('exc_type')}: "
                            f"{str(f.get('exc_msg'))[:120]} on {lang} after {case['faults']}")
         elif la == "Crash":
@@ -297,5 +321,5 @@ def run(chk) -> None:
                        dict(case, details=v["details"], api_exc=v["api_exc"]),
                        f"run aborted on {lang} after {case['faults']}: {v['api_exc'] or d}")
         else:
-            chk.reject({"clause": la, "lang": lang, "faults": case["faults"]}, case,
-                       f"{la} on {lang} after {case['faults']}")
+            chk.reject({"clause": la, "lang": lang, "faults": "30000-quote flood" if flood else case["faults"]}, case,
+                       f"{la} on {lang} after {case['faults']} (big={case['big']})")
